@@ -45,7 +45,8 @@ def generate(seed, tier):
     tps = []
     for i in range(r.choice((1, 1, 2))):
         tp = {"id": "tp%d" % i, "line": r.choice(("mark", "after")), "via": "service", "args": {},
-              "watches": r.sample(("depth", "ctx", "nosuch", "1/0", "'lone \\ud800'", "[depth, ctx]", "out"), r.choice((0, 1, 2, 3)))}
+              "watches": r.sample(("depth", "ctx", "nosuch", "1/0", "'lone \\ud800'", "[depth, ctx]", "out", "ClockBack()"),
+                                  r.choice((0, 1, 2, 3)))}
         if r.random() < 0.4:
             tp["args"]["log_msg"] = r.choice(("plain", "d={depth}", "bad {nosuch} {depth}", "{{x}}"))
         if r.random() < 0.3:
@@ -58,6 +59,8 @@ def generate(seed, tier):
     return {"prog": {"seed": seed, "name": "simval_%d" % (seed % 5), "opts": opts}, "tps": tps,
             "threads": [r.choice((1, 2))] if r.random() < 0.7 else [1, 1], "auth": r.choice(AUTHS),
             "send_errors": sorted(r.sample(range(6), r.choice((0, 0, 1, 2)))),
+            # attribute values the attribute model accepts but that are awkward on the wire; a thread whose name is not UTF-8
+            "odd_attrs": r.random() < 0.25, "odd_thread": r.random() < 0.15,
             "knobs": common.draw_knobs(r, stall_p=0.0)}
 
 
@@ -72,6 +75,9 @@ def shrink_candidates(s):
         yield dict(s, send_errors=[])
     if s["auth"] != "none":
         yield dict(s, auth="none")
+    for key in ("odd_attrs", "odd_thread"):
+        if s.get(key):
+            yield dict(s, **{key: False})
     o = s["prog"]["opts"]
     if o["n"]:
         yield dict(s, prog=dict(s["prog"], opts=dict(o, n=o["n"] - 1)))
@@ -84,6 +90,8 @@ def _any(v):
     if isinstance(v, str):
         return ("string_value", esc(v))
     if isinstance(v, int):
+        if not -2 ** 63 <= v < 2 ** 63:
+            return ("string_value", str(v))       # does not fit the wire's integer: any lossless form will do, text is one
         return ("int_value", v)
     if isinstance(v, float):
         return ("double_value", v)
@@ -200,6 +208,11 @@ def execute(scenario, ch):
                       "decorate": {"d_str": "text é", "d_bool": True, "d_int": 7, "d_float": 2.5, "d_list": ["a", "b"],
                                    "d_ints": [1, 2, 3], "d_bytes": b"raw"},
                       "resource": {"r_str": "res", "r_list": ["x", "y"], "r_int": 3, "r_bool": False}}]
+    if scenario.get("odd_attrs"):
+        sc["plugins"][0]["decorate"].update({"d_file": "report-\udcff.csv", "d_gaps": [1, None, 3], "d_hash": 2 ** 64 - 1})
+        sc["plugins"][0]["resource"].update({"r_name": "caf\udce9", "r_big": -2 ** 70, "r_opt": ["a", None]})
+    if scenario.get("odd_thread"):
+        sc["thread_names"] = ["worker-\udcff", "worker-caf\udce9"]
     errs = set(scenario["send_errors"])
     sc["send_faults"] = (lambda idx: {"kind": "error"} if idx in errs else None)
     k, cases, ctx = snapcommon.run_cases(sc, ch)
